@@ -306,6 +306,9 @@ class Repo:
             for cn, node in m.classes.items():
                 self._classes[(m.name, cn)] = ClassInfo(self, m, node)
         self.consulted = set()
+        # undo renames of locals so that rules can name them (see sa/canon.py); a no-op on the reference tree
+        from .canon import canonicalise
+        self.renames = canonicalise(self)
 
     # -- lookups (all fail closed)
     def module(self, name):
